@@ -122,6 +122,19 @@ RULES = [
 ]
 
 
+# rules with exactly one questionable detection item each (a first error must not hide the others)
+ITEMS = [("|exists", True), ("f|exists|all", True), ("f|all|exists", True), ("f|exists", "yes"), ("f|contains|base64", "a"), ("g|cidr|contains", "10.0.0.0/8"),
+         ("h|base64|cidr", "x"), ("j|gt|lt", 1), ("k|fieldref|base64", "y"), ("f|re|re", "d"), ("h|all|re", "c"), ("g|expand|re", "b"),
+         ("g|utf16|wide", "c"), ("f|fieldref", "a*"), ("f|fieldref", "a\\*"), ("f|base64", "a?"), ("f|base64offset", "\\*"), ("f|cidr", "x"), ("f|cidr", "10.0.0.1/8"),
+         ("f|re", "("), ("f|re|contains", "(?i)x"), ("f|re|startswith", "^a"), ("f|re|endswith", ""), ("f|re|i|contains", "a$"), ("f|gt", "5"),
+         ("f|minute", 1.5), ("f|lt", True), ("f|contains", 5), ("f|startswith", None), ("f|windash", 1), ("f|cased", ["a", 2]), ("f|wide", "é"),
+         ("f|utf16be|base64", "é"), ("f|expand", 5), ("f|i", "x"), ("f|neq|all", None), ("f|unknown", "x"), ("f|contains|", "x"), ("f", {"a": 1}),
+         ("f", [1, [2]]), ("f", D(2020, 1, 1)), ("f", float("nan")), ("f", 10 ** 400), ("f|re", 5), ("f|re|i", None), ("f|all|re", True),
+         ("f|re", ["a", "("]), ("f|contains", ["a", 5, "b"]), (None, "kw"), (None, ["k", 1, None]), ("", "x"), ("|", "x")]
+SINGLES = [rule(detection={"sel": {k: v}, "condition": "sel"}) for k, v in ITEMS] + \
+          [rule(detection={"ok": {"a": 1}, "sel": [{"a": 1}, {k: v}], "condition": "ok"}) for k, v in ITEMS[:12]]
+
+
 def corr(ctype, **kw):
     c = {"type": ctype, "rules": ["r1", "r2"], "group-by": ["User"], "timespan": "5m", "condition": {"gte": 10}}
     c.update(kw)
@@ -201,7 +214,7 @@ RANGE = {
     "title": ["x" * 256, "x" * 257, ""], "name": ["", "n"], "taxonomy": ["", "x"],
     "action": ["foo", 5, [], "global", "reset", "repeat", None],
 }
-MODKEYS = ["f|foo", "f|re|foo", "|contains", "f|", "f||contains", "f|contains|re", "f|re|contains", "f|re|expand", "f|re|i", "f|i", "f|cidr", "f|gt",
+MODKEYS = ["f|foo", "f|re|foo", "|contains", "|exists", "|re", "|all", "|base64offset|contains", "f|", "f||contains", "f|contains|re", "f|re|contains", "f|re|expand", "f|re|i", "f|i", "f|cidr", "f|gt",
            "f|exists", "f|base64", "f|wide", "f|utf16|wide", "f|fieldref", "f|all", "f|neq", "f|minute|gte", "f|windash|re", "F", "f|CONTAINS",
            "f|cased|cidr", "f|base64offset|base64", "f|expand|contains", "f|re|startswith|endswith"]
 MODVALS = ["", "x", "a*b", "(", "(?i)x", "10.0.0.0/8", "é", 5, True, None, 1.5, [], ["x", 5], ["(", "x"], {}, [[]], "^a$", ".*", "a\\"]
@@ -275,9 +288,10 @@ def random_yaml(rng, depth):
     return {rng.choice(keys): random_yaml(rng, depth - 1) for _ in range(rng.randint(0, 4))}
 
 
-def mutants(doc, rng, full):
+def mutants(doc, rng, full, split=False):
     """every path x every wrong type, deletions, key mutations, out-of-range values"""
     out = []
+    prio = []      # kept in every tier
     ps = paths(doc)
     for path, val in ps:
         for r in REPL:
@@ -292,8 +306,11 @@ def mutants(doc, rng, full):
             if m is not None: out.append(m)
         key = path[-1]
         for fam, vals in RANGE.items():
-            if key == fam or (fam == "date" and key == "modified") or (fam == "type" and key == "type" and len(path) == 2):
-                out += [with_value(doc, path, v) for v in vals]
+            if key == fam or (fam == "date" and key == "modified"):
+                if fam in ("condition", "type") and path[0] != "correlation":
+                    out += [with_value(doc, path, v) for v in vals]       # not validated while loading
+                else:
+                    prio += [with_value(doc, path, v) for v in vals]
         hs = HOSTILE if full else rng.sample(HOSTILE, 3)
         out += [with_value(doc, path, h) for h in hs]
         # detection items: other modifier chains x values
@@ -328,7 +345,8 @@ def mutants(doc, rng, full):
         out.append(random_yaml(rng, 4))
         if ps:
             out.append(with_value(doc, rng.choice(ps)[0], random_yaml(rng, 3)))
-    return out
+    if split: return prio, out
+    return prio + out
 
 
 COMMON_KEYS = ["id", "name", "taxonomy", "related", "level", "status", "tags", "date", "modified", "fields", "falsepositives",
@@ -375,14 +393,16 @@ def gen_load(tier, rng):
     for kind, docs in (("rule", RULES), ("corr", CORRS), ("filter", FILTERS)):
         for d in docs:
             cases.append({"kind": kind, "doc": to_tag(d)})
-            ms = mutants(d, rng, full)
-            keep = 60 if not full else 600
-            ms = rng.sample(ms, keep) if len(ms) > keep else ms
+            prio, ms = mutants(d, rng, full, split=True)
+            keep = 40 if not full else 600
+            ms = prio + (rng.sample(ms, keep) if len(ms) > keep else ms)
             cases += [{"kind": kind, "doc": to_tag(m)} for m in ms]
             cases += [{"kind": kind, "doc": to_tag(m)} for m in all_wrong(d, rng, 40 if full else 4)]
             # a document of one kind handed to the loader of another kind
             other = rng.choice([k for k in KINDS if k != kind])
             cases.append({"kind": other, "doc": to_tag(d)})
+    cases += [{"kind": "rule", "doc": to_tag(d)} for d in SINGLES]
+    cases += [{"kind": "filter", "doc": to_tag({"title": "F", "logsource": dict(LS), "filter": dict(d["detection"], rules=["r"])})} for d in SINGLES[:len(ITEMS)]]
     return cases
 
 
